@@ -3,9 +3,9 @@ MIR_NOTE = ('Bounded symbolic execution, not a proof. Trusted: rustc nightly MIR
             'the OpenMLS/storage environment contracts listed in the evidence, z3. Callee results are nondeterministic; loops and symbolic lists are '
             'unrolled to the stated bounds with an unwinding check (a path hitting the bound makes the check BROKEN, not passing).')
 ENGINES = [
-    dict(name='sqlsym', path='/verif/sqlsym', serves_properties=['C09', 'C12'],
+    dict(name='sqlsym', path='/verif/sqlsym', serves_properties=['C09', 'C10', 'C12', 'C16', 'C20'],
          kind_free_text='E4: SQL programs of the SQLite backend (extracted from the sources with the schema of migrations/*.sql) as relational SMT over symbolic rows, decided by z3'),
-    dict(name='mirsym', path='/verif/mirsym', serves_properties=['C01', 'C02', 'C04', 'C05', 'C07', 'C08', 'C16'],
+    dict(name='mirsym', path='/verif/mirsym', serves_properties=['C01', 'C02', 'C04', 'C05', 'C07', 'C08', 'C11', 'C16', 'C20'],
          kind_free_text='E3/E3c: symbolic execution (z3) of the textual MIR of the repository crates, regenerated from the working tree on every run'),
     dict(name='kani-direct', path='/verif/kani/direct', serves_properties=['C18'],
          kind_free_text='E1: Kani 0.68 / CBMC 6.11 harnesses (kani::any inputs, unwind bounds, cover! vacuity witnesses) over the compiled real code'),
@@ -14,6 +14,22 @@ NOTES = ('Solver-based checking of the real code: CBMC via Kani over compiled Ru
          "repository's MIR and SQL. Every claim is bounded; see DESIGN.md. Exit 2 = broken/inconclusive machinery, never a VIOLATION.")
 PENDING = 'check not built yet in this revision of /verif (work in progress; see DESIGN.md section 5 for the planned obligations)'
 CHECKS = [
+    dict(id='C10', engine='sqlsym', design_ref='DESIGN.md section 5, C10',
+         technique='SMT equivalence (z3) between SQL extracted from the SQLite backend (ORDER BY, LIMIT/OFFSET parameter casts, WHERE predicates) and the reference model of the storage contract, for all 64-bit values',
+         text='z3 shows, for all rows and parameters, that the ORDER BY clauses equal the documented total orders, that LIMIT/OFFSET with the Rust-side casts equals slice pagination for every limit '
+              'and usize offset, that the invalidation / retry / pending-welcome predicates select exactly the contract\'s records (NULL epochs included), and cross-checks upsert column coverage against the migrations.',
+         note='Partial: the places where the two backends implement the same function twice. Timestamps < 2^63 (above that rusqlite refuses the value). Column coverage is a catalogue cross-check. '
+              'A differential run over arbitrary operation sequences needs the real SQLite engine and is not claimed. Memory-side kernels are E3c obligations (listed in the evidence when built).'),
+    dict(id='C11', engine='mirsym', design_ref='DESIGN.md section 5, C11',
+         technique='symbolic execution of the compiler MIR with container models: pre-restart vs hydrated snapshot manager compared on symbolic queries by z3',
+         text='A manager re-created over the same persistent stub storage is hydrated through the real ensure_hydrated/parse_snapshot_name MIR and compared with the original on every symbolic '
+              'is_better_candidate query and on the tracked set. One known finding (commit timestamp not persisted) is listed in known_findings.txt.',
+         note=MIR_NOTE + ' Partial: only the snapshot manager\'s restart behaviour. That SQLite persists everything else is behind FFI and not claimed.'),
+    dict(id='C20', engine='mirsym', design_ref='DESIGN.md section 5, C20',
+         technique='symbolic execution of the compiler MIR with container models against a reference model (z3 decides equality after every step); SMT on the SQL prune predicate',
+         text='For every sequence of create / rollback / restart steps up to the bound, with symbolic retention, epochs, timestamps and ids, the real snapshot-manager code is shown equal to a '
+              '6-line reference model after every step (queue bounded by retention, most recent kept, stored snapshots in step, rollback discards the suffix); the SQLite prune predicate and listing order and the start-up pruning call are checked.',
+         note=MIR_NOTE + ' Bounds: <= 3 (quick) / 4 (thorough) steps, retention <= 3 / 5, one group. Stub storage in place of the backends (their snapshot primitives are C09).'),
     dict(id='C09', engine='sqlsym', design_ref='DESIGN.md section 5, C09',
          technique='relational SMT (z3) over the SQL program and schema extracted from the SQLite backend: symbolic rows, foreign-key cascade closure, frame-condition queries; native replay on the real backend',
          text='The statement list of restore_group_from_snapshot is executed symbolically over every table of the schema (symbolic row presence, owning group, snapshot name, '
@@ -81,4 +97,4 @@ NOT_APPLICABLE = [
     dict(property_id='C14', reason='needs core::fmt executed on every path or a taint analysis; formatting is what this family stubs out'),
     dict(property_id='C19', reason='thread interleavings: Kani sequentialises atomics and rejects thread::spawn; parking_lot crashes the Kani compiler; no concurrency engine in this family here'),
 ] + [dict(property_id=p, reason=PENDING) for p in
-     ['C06', 'C10', 'C11', 'C15', 'C17', 'C20']]
+     ['C06', 'C15', 'C17']]
